@@ -550,6 +550,75 @@ impl Registrations {
 #[derive(Debug, Eq, PartialEq)]
 struct CookieNamespaceMismatch;
 
+/// Verification-only facade over the private [`Registrations`] store (forwarding only).
+#[cfg(libp2p_verif)]
+pub mod verif {
+    use libp2p_core::PeerRecord;
+
+    use super::*;
+
+    /// Thin wrapper around the real `Registrations`.
+    pub struct Regs(Registrations);
+
+    impl Regs {
+        pub fn new(config: Config) -> Self {
+            Regs(Registrations::with_config(config))
+        }
+
+        /// Forwards to `Registrations::add`; on success also returns the internal id of the new
+        /// registration as an opaque handle for [`Regs::force_expire`].
+        pub fn add(
+            &mut self,
+            namespace: Namespace,
+            record: PeerRecord,
+            ttl: Option<Ttl>,
+        ) -> Result<(Registration, u64), ErrorCode> {
+            let key = (record.peer_id(), namespace.clone());
+            let registration = self
+                .0
+                .add(NewRegistration::new(namespace, record, ttl))?;
+            let handle = self
+                .0
+                .registrations_for_peer
+                .get_by_left(&key)
+                .map(|id| id.0)
+                .unwrap_or_default();
+            Ok((registration, handle))
+        }
+
+        pub fn remove(&mut self, namespace: Namespace, peer_id: PeerId) {
+            self.0.remove(namespace, peer_id)
+        }
+
+        /// Forwards to `Registrations::get`; `Err(())` is `CookieNamespaceMismatch`.
+        #[allow(clippy::result_unit_err)]
+        pub fn get(
+            &mut self,
+            namespace: Option<Namespace>,
+            cookie: Option<Cookie>,
+            limit: Option<u64>,
+        ) -> Result<(Vec<Registration>, Cookie), ()> {
+            match self.0.get(namespace, cookie, limit) {
+                Ok((registrations, cookie)) => Ok((registrations.cloned().collect(), cookie)),
+                Err(CookieNamespaceMismatch) => Err(()),
+            }
+        }
+
+        /// Forwards to `Registrations::poll`.
+        pub fn poll(&mut self, cx: &mut Context<'_>) -> Poll<Registration> {
+            self.0.poll(cx).map(|ExpiredRegistration(r)| r)
+        }
+
+        /// Queues an expiry future for the registration behind `handle` that is ready immediately,
+        /// as if its TTL timer had fired; it takes effect through the real `poll` path.
+        pub fn force_expire(&mut self, handle: u64) {
+            self.0
+                .next_expiry
+                .push(futures::future::ready(RegistrationId(handle)).boxed());
+        }
+    }
+}
+
 #[cfg(test)]
 mod tests {
     use libp2p_core::PeerRecord;
